@@ -18,6 +18,9 @@ use std::sync::{Arc, Mutex};
 #[derive(Serialize, Deserialize, Clone, Debug, PartialEq)]
 pub enum LOp {
     Open,
+    /// open with create_if_missing = false: fails on a path without a database and must leave
+    /// nothing behind that disturbs a creator racing with it
+    OpenExisting,
     /// yield n times, re-reading the own key each time when owning the database
     Hold(u32),
     Close,
@@ -191,6 +194,10 @@ struct Owners {
     destroy_calls_by: Vec<(u64, u64, usize)>,
     /// (shuttle task, seq at which its close began)
     closes_by: Vec<(usize, u64)>,
+    /// open / destroy calls in progress right now (to notice an overlap the moment it begins, so
+    /// that the classification survives an execution that is cut short by a panic or deadlock)
+    active_opens: u32,
+    active_destroys: u32,
     /// ownership intervals: (task, tasks existing when its open began, open returned at, close began at)
     intervals: Vec<(usize, u64, u64, u64)>,
     open_now: std::collections::BTreeMap<usize, (u64, u64)>,
@@ -209,6 +216,10 @@ fn push_finding(out: &Shared, f: Finding) {
 }
 
 fn opts(fs: &Arc<Traced>, path: &Path, k: &Knobs) -> DbOptions {
+    opts_create(fs, path, k, true)
+}
+
+fn opts_create(fs: &Arc<Traced>, path: &Path, k: &Knobs, create_if_missing: bool) -> DbOptions {
     DbOptions {
         db_path: path.to_str().unwrap().to_owned(),
         max_memtable_size: k.max_memtable_size,
@@ -217,7 +228,7 @@ fn opts(fs: &Arc<Traced>, path: &Path, k: &Knobs) -> DbOptions {
         filesystem_provider: fs.clone(),
         filter_policy: Arc::new(BloomFilterPolicy::new(k.bloom_bits)),
         block_cache: raindb::verif_api::new_block_cache(16),
-        create_if_missing: true,
+        create_if_missing,
         error_if_exists: false,
         reuse_log_files: k.reuse_log_files,
     }
@@ -234,14 +245,26 @@ struct Ctx {
 impl Ctx {
     /// Try to open; on success register as owner, write and read back the own key.
     fn try_open(&self, task: usize, round: u32) -> Option<DB> {
+        self.try_open_with(task, round, true)
+    }
+
+    fn try_open_with(&self, task: usize, round: u32, create_if_missing: bool) -> Option<DB> {
         let before: BTreeSet<usize> = self.owners.lock().unwrap().current.clone();
-        let o = opts(&self.fs, &self.path, &self.knobs);
+        let o = opts_create(&self.fs, &self.path, &self.knobs, create_if_missing);
         let existing_tasks = rt::spawned_count();
         let t0 = rt::next_seq();
+        {
+            let mut g = self.owners.lock().unwrap();
+            g.active_opens += 1;
+            if g.active_destroys > 0 {
+                with_out(&self.out, |o| o.stats.probe("destroy_overlapped_open"));
+            }
+        }
         let r = call("open", || DB::open(o));
         let t1 = rt::next_seq();
         {
             let mut g = self.owners.lock().unwrap();
+            g.active_opens -= 1;
             g.open_calls.push((t0, t1));
             g.open_calls_by.push((t0, t1, rt::current_task(), matches!(r, Called::Ok(Ok(_)))));
             if matches!(r, Called::Ok(Ok(_))) {
@@ -322,8 +345,16 @@ impl Ctx {
         let before: BTreeSet<usize> = self.owners.lock().unwrap().current.clone();
         let o = opts(&self.fs, &self.path, &self.knobs);
         let t0 = rt::next_seq();
+        {
+            let mut g = self.owners.lock().unwrap();
+            g.active_destroys += 1;
+            if g.active_opens > 0 {
+                with_out(&self.out, |o| o.stats.probe("destroy_overlapped_open"));
+            }
+        }
         let r = call("destroy_database", || DB::destroy_database(o));
         let t1 = rt::next_seq();
+        self.owners.lock().unwrap().active_destroys -= 1;
         self.owners.lock().unwrap().destroy_calls.push((t0, t1));
         self.owners.lock().unwrap().destroy_calls_by.push((t0, t1, rt::current_task()));
         let after: BTreeSet<usize> = self.owners.lock().unwrap().current.clone();
@@ -387,6 +418,13 @@ pub fn body(case: &Case, out: &Shared) {
                                 db = ctx.try_open(t, round);
                             }
                         }
+                        LOp::OpenExisting => {
+                            if db.is_none() {
+                                round += 1;
+                                db = ctx.try_open_with(t, round, false);
+                                with_out(&ctx.out, |o| o.stats.probe("open_without_create"));
+                            }
+                        }
                         LOp::Hold(k) => {
                             for _ in 0..*k {
                                 rt::sched_point(rt::YieldKind::Client);
@@ -410,7 +448,12 @@ pub fn body(case: &Case, out: &Shared) {
                                 for j in 0..*k {
                                     let key = format!("burst-{}-{}", t, j % 7).into_bytes();
                                     let val = vec![b'a' + (j % 26) as u8; 120];
-                                    let _ = call("put", || d.put(WriteOptions::default(), key, val));
+                                    // "does not disturb the running instance": the owner's writes
+                                    // (and the flushes they trigger) keep working
+                                    if let Called::Ok(Err(e)) = call("put", || d.put(WriteOptions::default(), key, val)) {
+                                        push_finding(&ctx.out, Finding::new(&["C17"], "owner-not-functional", "burst", format!("task {} owns the database but write {} of a burst failed: {:?}", t, j, e), None));
+                                        break;
+                                    }
                                 }
                             }
                         }
@@ -576,6 +619,31 @@ pub fn body(case: &Case, out: &Shared) {
             }
         }
     }
+    // The mutual exclusion of C17 rests on flock() of the file *named* LOCK: whoever unlinks that
+    // name while an open call is in progress (its own or, having been refused, somebody else's
+    // lock) lets the next opener lock a fresh inode although the old one is still locked - two
+    // owners. Racing openers rarely line up with the two or three filesystem calls in question, so
+    // the unlink itself is reported: a DB::open call must never remove the LOCK file.
+    if !rt::is_poisoned() {
+        let muts = fs.mutations.lock().unwrap();
+        'unlink: for (o0, o1, ot, ok) in g.open_calls_by.iter() {
+            for (m, w, what) in muts.iter() {
+                if *w == *ot && *m > *o0 && *m < *o1 && *what == "remove_lock_file" {
+                    push_finding(
+                        out,
+                        Finding::new(
+                            &["C17"],
+                            "lock-file-unlinked-by-open",
+                            if *ok { "open-ok" } else { "open-failed" },
+                            format!("the DB::open call of task {} (events {}..{}, returned {}) removed the LOCK file at event {}: the file lock is bound to the inode, so from this moment a second DB::open locks a fresh LOCK file and succeeds while the first lock is still held", ot, o0, o1, if *ok { "Ok" } else { "an error" }, m),
+                            None,
+                        ),
+                    );
+                    break 'unlink;
+                }
+            }
+        }
+    }
     let calls = *fs.calls.lock().unwrap();
     with_out(out, |o| {
         o.stats.fs_calls += calls;
@@ -605,6 +673,18 @@ pub fn body(case: &Case, out: &Shared) {
     let _ = root;
 }
 
+/// Classification of C17 findings by "did a destroy_database call overlap a DB::open call in this
+/// run" (the known finding needs such an overlap). Applied to the result of every lock-race
+/// execution, also one that was cut short, from the probe set at the moment an overlap began.
+pub fn classify_findings(res: &mut crate::exec::CaseResult) {
+    let raced = res.stats.probes.get("destroy_overlapped_open").copied().unwrap_or(0) > 0;
+    for f in res.findings.iter_mut() {
+        if f.concerns("C17") && !f.signature.contains("destroy-overlap") {
+            f.signature.push_str(if raced { "|destroy-overlapped-open" } else { "|no-destroy-overlap" });
+        }
+    }
+}
+
 pub fn gen_plan(rng: &mut crate::rng::Rng, thorough: bool) -> LockPlan {
     let n = rng.range(2, if thorough { 4 } else { 3 }) as usize;
     if rng.chance(2, 5) {
@@ -615,7 +695,7 @@ pub fn gen_plan(rng: &mut crate::rng::Rng, thorough: bool) -> LockPlan {
             let tries = rng.range(2, 6) as usize;
             let mut ops = vec![];
             for _ in 0..tries {
-                ops.push(LOp::Open);
+                ops.push(if rng.chance(1, 6) { LOp::OpenExisting } else { LOp::Open });
                 if rng.chance(1, 3) {
                     ops.push(LOp::Hold(1));
                 }
@@ -627,12 +707,34 @@ pub fn gen_plan(rng: &mut crate::rng::Rng, thorough: bool) -> LockPlan {
         }
         return LockPlan { tasks, final_racers: rng.range(1, n as u64) as usize, probes: if rng.chance(2, 3) { 20 + rng.below(200) as u32 } else { 0 } };
     }
+    if rng.chance(1, 6) {
+        // template: the path holds no database; some tasks open it without create_if_missing (and
+        // fail) while another creates it, writes more than a memtable and keeps using it
+        // (the creator retries: while a failing opener still holds the lock it is refused)
+        let mut tasks = vec![vec![LOp::Open, LOp::Open, LOp::Open, LOp::Open, LOp::Burst(40 + rng.below(100) as u32), LOp::Hold(2), LOp::Burst(10 + rng.below(40) as u32), LOp::Close]];
+        for _ in 1..n {
+            let mut ops = vec![];
+            for _ in 0..rng.range(1, 4) {
+                ops.push(LOp::OpenExisting);
+                if rng.chance(1, 2) {
+                    ops.push(LOp::Close);
+                }
+            }
+            tasks.push(ops);
+        }
+        if rng.chance(1, 3) {
+            // ... after a destroy instead of on a fresh path
+            tasks[0].splice(0..0, [LOp::Open, LOp::Close, LOp::Destroy]);
+        }
+        return LockPlan { tasks, final_racers: rng.range(1, n as u64) as usize, probes: 0 };
+    }
     let mut tasks = vec![];
     for _ in 0..n {
         let len = rng.range(2, if thorough { 10 } else { 6 }) as usize;
         let mut ops = vec![];
         for _ in 0..len {
-            ops.push(match rng.weighted(&[38, 20, 22, 8, 12]) {
+            ops.push(match rng.weighted(&[34, 20, 22, 8, 12, 6]) {
+                5 => LOp::OpenExisting,
                 0 => LOp::Open,
                 1 => LOp::Hold(1 + rng.below(3) as u32),
                 2 => LOp::Close,
